@@ -50,13 +50,32 @@ impl Interface {
     }
 
     pub fn all_base_interfaces(&self) -> Vec<&Interface> {
-        let mut all_bases = self.base_interfaces();
-        all_bases.extend(self.bases.iter().flat_map(|type_ref| type_ref.all_base_interfaces()));
+        use std::collections::HashSet;
 
-        // Filter duplicates created by diamond inheritance in-place.
-        let mut seen_identifiers = std::collections::HashSet::new();
-        all_bases.retain(|base| seen_identifiers.insert(base.parser_scoped_identifier()));
+        /// Appends the bases of `interface` that aren't in `all_bases` yet (its direct bases first, then the bases of
+        /// each of them, in order). Every interface is only expanded once: expanding it again could only yield bases
+        /// that were already collected, and would take exponential time with diamond-shaped inheritance.
+        fn collect<'a>(
+            interface: &'a Interface,
+            all_bases: &mut Vec<&'a Interface>,
+            seen: &mut HashSet<String>,
+            expanded: &mut HashSet<String>,
+        ) {
+            let bases = interface.base_interfaces();
+            for base in &bases {
+                if seen.insert(base.parser_scoped_identifier()) {
+                    all_bases.push(base);
+                }
+            }
+            for base in bases {
+                if expanded.insert(base.parser_scoped_identifier()) {
+                    collect(base, all_bases, seen, expanded);
+                }
+            }
+        }
 
+        let mut all_bases = Vec::new();
+        collect(self, &mut all_bases, &mut HashSet::new(), &mut HashSet::new());
         all_bases
     }
 }
